@@ -9,7 +9,7 @@ worktree) this script, in a scratch git worktree of /repo outside /repo and /ver
   4. runs ./check <property> --tier quick against the changed tree (VERIF_REPO) and records the verdict and which obligations/bounded checks fired,
 and then writes seeded/<property>-<A|B>/{patch.diff, demo.py, meta.json}.  Nothing is ever applied to /repo itself.
 
-usage: tools_seeded.py [C01 C02 ...]      (default: all; properties run in parallel, 5 at a time)
+usage: [SEEDED_ONLY='D E'] tools_seeded.py [C01 C02 ...]      (default: all changes of all properties; properties run in parallel, 5 at a time)
 """
 import json
 import os
@@ -21,6 +21,7 @@ from concurrent.futures import ThreadPoolExecutor
 ROOT = os.path.dirname(os.path.abspath(__file__))
 INC = os.path.join(ROOT, 'seeded', '_incoming')
 PY = '/venv/bin/python'
+MUTS = tuple(os.environ.get('SEEDED_ONLY', 'A B C D E').split())
 
 
 def sh(cmd, cwd=None, env=None, timeout=3600):
@@ -41,7 +42,7 @@ def one_property(pid):
     results = []
     try:
         head = sh('git -C /repo rev-parse --short HEAD')[1].strip()
-        for m in ('A', 'B', 'C'):
+        for m in MUTS:
             src = os.path.join(INC, pid, m + '_rebased.diff')
             rebased = os.path.exists(src)
             if not rebased:
